@@ -8,7 +8,7 @@ the full class dispatch; calls whose domain is narrower than the specification
 """
 import ast
 
-from ..astutil import body_raises, call_simple_name, dotted, guard_chain, names_in, pm, pmall, short
+from ..astutil import body_raises, call_simple_name, dotted, enclosing_stmt, guard_chain, names_in, pm, pmall, short
 from ..callgraph import EXACT, get_callgraph
 from ..cfg import ReachingDefs, call_name, cfg_of, node_calls
 from ..loader import AnalysisError, ClassInfo, FunctionInfo, body_walk, norm, walk_no_nested
@@ -36,6 +36,7 @@ def run(ctx):
     rule_ref_generics(ctx)
     rule_api_domain(ctx)
     rule_container_dispatch(ctx)
+    rule_absent_values(ctx)
     from .C08 import rule_descends, rule_positional_index, rule_syntax_agreement, rule_truthiness
     rule_truthiness(ctx, rule_id="C03.selector-acceptance")
     rule_positional_index(ctx, rule_id="C03.selector-acceptance")
@@ -337,4 +338,76 @@ def rule_container_dispatch(ctx):
         run.check(ok3, R, key(ob.module.relpath, ob.qualname, "members-replaced-by-parsed"),
                   "parsed observables are not stored back for every key", file=ob.module.relpath, line=loop.lineno,
                   function=ob.qualname, expected="dictified[key] = parsed_obj for every item", found=[short(s) for s in stores])
-    run.floor(R, 3)
+        # the key -> type map handed to every member covers ALL members before the first one is parsed: observable
+        # references may point forwards ("0" refers to "1"); a map filled as the loop goes refuses those
+        pcalls = [c for s_ in loop.body for c in walk_no_nested(s_) if isinstance(c, ast.Call) and call_simple_name(c) == "parse_observable"]
+        pc = pcalls[0]
+        pfi = prog.func("stix2.parsing::parse_observable")
+        vr = None
+        if len(pc.args) >= 2:
+            vr = pc.args[1]
+        for k in pc.keywords:
+            if len(pfi.params) > 1 and k.arg == pfi.params[1]:
+                vr = k.value
+        ck = key(ob.module.relpath, ob.qualname, "reference-map-complete-before-loop")
+        if not isinstance(vr, ast.Name):
+            raise AnalysisError("ObservableProperty.clean: the reference map passed to parse_observable is not a local name")
+        rd2 = ReachingDefs(g2, ob.all_param_names())
+        defs = [(dn, v) for dn, v in rd2.reaching(g2.node_of(enclosing_stmt(pc)), vr.id)]
+        in_loop_defs = [dn for dn, v in defs if any(dn.ast is x or dn.ast in list(ast.walk(x)) for x in loop.body)]
+        mut = [x for s_ in loop.body for x in walk_no_nested(s_)
+               if (isinstance(x, (ast.Assign, ast.AugAssign)) and any(
+                   isinstance(t, ast.Subscript) and isinstance(t.value, ast.Name) and t.value.id == vr.id
+                   for t in (x.targets if isinstance(x, ast.Assign) else [x.target])))
+               or (isinstance(x, ast.Call) and isinstance(x.func, ast.Attribute) and isinstance(x.func.value, ast.Name)
+                   and x.func.value.id == vr.id and x.func.attr in ("update", "setdefault", "pop", "clear", "__setitem__"))]
+        whole = [v for dn, v in defs if isinstance(v, (ast.DictComp, ast.Call)) and norm(loop.iter.func.value if isinstance(
+            loop.iter, ast.Call) and isinstance(loop.iter.func, ast.Attribute) else loop.iter) in norm(v)]
+        run.check(bool(whole) and len(whole) == len(defs) and not in_loop_defs and not mut, R, ck,
+                  "the key->type map given to parse_observable does not cover every member before the first member is parsed "
+                  "(it is filled inside the loop): a valid observed-data whose object refers to a later key (\"0\" -> \"1\") "
+                  "is refused", file=ob.module.relpath, line=(mut[0].lineno if mut else loop.lineno), function=ob.qualname,
+                  expected="valid_refs = {k: v['type'] for k, v in dictified.items()} before the loop, not modified in it",
+                  found=[short(v) for _, v in defs if isinstance(v, ast.AST)] + [short(m) for m in mut])
+    run.floor(R, 4)
+
+
+def rule_absent_values(ctx):
+    """Which given values the constructor treats as "not given": None and the empty list, nothing else.  Every other falsy
+    value ('' / 0 / False / {}) is content and must reach the cleaner."""
+    from .C08 import _bool_uses
+    run = ctx.run
+    prog = ctx.prog
+    R = "C03.absent-values"
+    fi = prog.func("stix2.base::_STIXBase.__init__")
+    rel = fi.module.relpath
+    n = 0
+    for node in body_walk(fi.node):
+        if not (isinstance(node, ast.If) and isinstance(node.test, ast.Compare) and len(node.test.ops) == 1
+                and isinstance(node.test.ops[0], ast.NotIn) and isinstance(node.test.left, ast.Name)
+                and isinstance(node.test.comparators[0], (ast.Tuple, ast.List, ast.Set))):
+            continue
+        v = node.test.left.id
+        stores = [x for x in node.body if isinstance(x, ast.Assign) and isinstance(x.targets[0], ast.Subscript)
+                  and isinstance(x.value, ast.Name) and x.value.id == v]
+        if not stores:
+            continue
+        n += 1
+        elts = [norm(e) for e in node.test.comparators[0].elts]
+        extra = [e for e in elts if e not in ("None", "[]")]
+        run.check(not extra, R, key(rel, fi.qualname, "only-None-and-[]-mean-absent"),
+                  "the constructor drops a given value other than None / []: %s is legal content of a property (an empty "
+                  "description, a zero count, false) and disappears from the object, or makes a required property 'missing'"
+                  % ", ".join(extra), file=rel, line=node.lineno, function=fi.qualname, expected="(None, [])", found=elts)
+        loop = node
+        while loop is not None and not isinstance(loop, ast.For):
+            loop = getattr(loop, "parent", None)
+        uses = []
+        for s_ in (loop.body if loop is not None else []):
+            uses += _bool_uses(s_, v)
+        run.check(not uses, R, key(rel, fi.qualname, "given-value-not-tested-by-truthiness"),
+                  "a given property value is tested by truthiness: '' / 0 / False are treated as absent", file=rel,
+                  line=uses[0].lineno if uses else node.lineno, function=fi.qualname, expected="`not in (None, [])`",
+                  found=short(uses[0]) if uses else None)
+    if n == 0:
+        raise AnalysisError("_STIXBase.__init__: `if <value> not in (None, []): kwargs[name] = <value>` not found")
